@@ -2,6 +2,7 @@ package checks
 
 import (
 	"fmt"
+	"go/constant"
 	"go/token"
 	"go/types"
 	"sort"
@@ -515,6 +516,77 @@ func (c *Ctx) deliverCompleteOnly() {
 				} else {
 					good[[2]*ssa.BasicBlock{b, b.Succs[1]}] = true
 				}
+			}
+		}
+		// compound conditions that were evaluated into a value (a tagless switch case `A && B`, a stored boolean): the
+		// outcome of the test implies "complete or unfiltered" when each way of getting that outcome does
+		var implies func(v ssa.Value, val bool, depth int) bool
+		implies = func(v ssa.Value, val bool, depth int) bool {
+			if depth > 6 {
+				return false
+			}
+			if u, isU := v.(*ssa.UnOp); isU && u.Op == token.NOT {
+				return implies(u.X, !val, depth+1)
+			}
+			if n, call := callMethodName(v); n == "hasComplete" && call != nil && len(call.Call.Args) == 1 && call.Call.Args[0] == m {
+				return val
+			}
+			if owner, f, ok := fieldLoad(v); ok && owner == "connection" && f == "filter" {
+				return !val
+			}
+			phi, isPhi := v.(*ssa.Phi)
+			if !isPhi || len(phi.Edges) != 2 {
+				return false
+			}
+			for k, e := range phi.Edges {
+				cv, isC := e.(*ssa.Const)
+				if !isC || cv.Value == nil || cv.Value.Kind() != constant.Bool {
+					continue
+				}
+				short := constant.BoolVal(cv.Value) // false: A && B, true: A || B
+				pred := phi.Block().Preds[k]
+				pif, isIf := pred.Instrs[len(pred.Instrs)-1].(*ssa.If)
+				if !isIf {
+					return false
+				}
+				// the left operand, as a (value, polarity) pair: the short-circuit edge is taken when A == short
+				aVal, aPol := pif.Cond, true
+				if short {
+					aPol = pred.Succs[0] == phi.Block()
+				} else {
+					aPol = pred.Succs[1] == phi.Block()
+				}
+				A := func(want bool) bool { return implies(aVal, want == aPol, depth+1) }
+				B := func(want bool) bool { return implies(phi.Edges[1-k], want, depth+1) }
+				if !short { // A && B
+					if val {
+						return A(true) || B(true)
+					}
+					return A(false) && B(false)
+				}
+				// A || B
+				if val {
+					return A(true) && B(true)
+				}
+				return A(false) || B(false)
+			}
+			return false
+		}
+		for _, b := range fn.Blocks {
+			iff, isIf := b.Instrs[len(b.Instrs)-1].(*ssa.If)
+			if !isIf || b.Succs[0] == b.Succs[1] {
+				continue
+			}
+			if _, isPhi := iff.Cond.(*ssa.Phi); !isPhi {
+				if u, isU := iff.Cond.(*ssa.UnOp); !isU || u.Op != token.NOT {
+					continue
+				}
+			}
+			if implies(iff.Cond, true, 0) {
+				good[[2]*ssa.BasicBlock{b, b.Succs[0]}] = true
+			}
+			if implies(iff.Cond, false, 0) {
+				good[[2]*ssa.BasicBlock{b, b.Succs[1]}] = true
 			}
 		}
 		seen := map[*ssa.BasicBlock]bool{from: true}
